@@ -246,7 +246,10 @@ def _convert_call(node: ast.Call) -> libsbml.ASTNode:
 
 
 def _convert_compare(node: ast.Compare) -> libsbml.ASTNode:
-    # FIXME: handle cases such as x < y < z
+    if len(node.ops) != 1:
+        # x < y < z: exporting only the first link would change the meaning
+        msg = "chained comparison"
+        raise NotImplementedError(msg)
 
     left = _convert_node(node.left)
     right = _convert_node(node.comparators[0])
